@@ -51,10 +51,17 @@ pub struct EfgStyle {
     pub unreduced: bool,
     /// list the actions of every infoset in reverse name order
     pub reverse_actions: bool,
+    /// name an infoset only at the first of its nodes (the others carry the number alone)
+    pub partly_named: bool,
+}
+
+/// a name inside Gambit's double quotes
+pub fn efg_escape(name: &str) -> String {
+    name.replace('\\', "\\\\").replace('"', "\\\"")
 }
 
 impl EfgStyle {
-    pub const PLAIN: EfgStyle = EfgStyle { sum: 0.0, interior: false, share_outcomes: false, unnamed_infosets: false, unreduced: false, reverse_actions: false };
+    pub const PLAIN: EfgStyle = EfgStyle { sum: 0.0, interior: false, share_outcomes: false, unnamed_infosets: false, unreduced: false, reverse_actions: false, partly_named: false };
 
     pub fn all() -> Vec<EfgStyle> {
         let mut res = vec![EfgStyle::PLAIN];
@@ -67,19 +74,21 @@ impl EfgStyle {
         res.push(EfgStyle { unnamed_infosets: true, ..EfgStyle::PLAIN });
         res.push(EfgStyle { unreduced: true, ..EfgStyle::PLAIN });
         res.push(EfgStyle { reverse_actions: true, ..EfgStyle::PLAIN });
-        res.push(EfgStyle { sum: -3.0, interior: true, share_outcomes: true, unnamed_infosets: true, unreduced: true, reverse_actions: true });
+        res.push(EfgStyle { partly_named: true, ..EfgStyle::PLAIN });
+        res.push(EfgStyle { sum: -3.0, interior: true, share_outcomes: true, unnamed_infosets: true, unreduced: true, reverse_actions: true, partly_named: false });
         res
     }
 
     pub fn name(&self) -> String {
         format!(
-            "sum{}{}{}{}{}{}",
+            "sum{}{}{}{}{}{}{}",
             self.sum,
             if self.interior { "+interior" } else { "" },
             if self.share_outcomes { "+shared" } else { "" },
             if self.unnamed_infosets { "+unnamed" } else { "" },
             if self.unreduced { "+unreduced" } else { "" },
-            if self.reverse_actions { "+reversed" } else { "" }
+            if self.reverse_actions { "+reversed" } else { "" },
+            if self.partly_named { "+partly-named" } else { "" }
         )
     }
 }
@@ -117,6 +126,8 @@ struct EfgWriter {
     /// interior increments already spelled out
     interior_seen: BTreeMap<u64, u64>,
     anon_chance: u64,
+    /// (player, infoset number) already written with its name
+    named: std::collections::BTreeSet<(usize, u64)>,
 }
 
 impl EfgWriter {
@@ -209,12 +220,13 @@ impl EfgWriter {
                 if self.style.reverse_actions {
                     order.reverse();
                 }
-                let names: Vec<String> = order.iter().map(|i| format!("\"{}\"", acts[*i].0)).collect();
+                let names: Vec<String> = order.iter().map(|i| format!("\"{}\"", efg_escape(&acts[*i].0))).collect();
                 let outcome = interior(self, true);
-                if self.style.unnamed_infosets {
+                let repeat = !self.named.insert((*player, num));
+                if self.style.unnamed_infosets || (self.style.partly_named && repeat) {
                     self.out.push_str(&format!("p \"\" {} {} {{ {} }} {}\n", player + 1, num, names.join(" "), outcome));
                 } else {
-                    self.out.push_str(&format!("p \"\" {} {} \"{}\" {{ {} }} {}\n", player + 1, num, name, names.join(" "), outcome));
+                    self.out.push_str(&format!("p \"\" {} {} \"{}\" {{ {} }} {}\n", player + 1, num, efg_escape(&name), names.join(" "), outcome));
                 }
                 let mut subs: Vec<(String, Tree)> = Vec::new();
                 for i in &order {
@@ -227,7 +239,7 @@ impl EfgWriter {
 }
 
 pub fn efg_file(label: &str, tree: &Tree, style: EfgStyle) -> GameFile {
-    let mut writer = EfgWriter { style, out: String::new(), numbers: Default::default(), next_outcome: 0, outcomes: BTreeMap::new(), interior_seen: BTreeMap::new(), anon_chance: 0 };
+    let mut writer = EfgWriter { style, out: String::new(), numbers: Default::default(), next_outcome: 0, outcomes: BTreeMap::new(), interior_seen: BTreeMap::new(), anon_chance: 0, named: Default::default() };
     writer.out.push_str(&format!("EFG 2 R \"{}\" {{ \"one\" \"two\" }}\n", label.replace('"', "'")));
     let model = writer.node(tree, 0.0, 0);
     let canonical_order = names_sorted(&model);
@@ -386,5 +398,13 @@ pub fn cli_games(thorough: bool) -> Vec<(String, Tree)> {
         }
     }
     res.extend(crate::checks::c06::collision_games().into_iter().filter(|(n, _)| n == "two_level_shared" || n == "shared_chance_below" || n == "shared_then_own_3"));
+    // names that need escaping in both formats (quotes, backslashes), sorted by their real spelling
+    {
+        use crate::tree::{p, t};
+        res.push((
+            "escaped_names".into(),
+            p(0, "info \"one\"", vec![("Raise", p(1, "back\\slash", vec![("a\\b", t(1.0)), ("say \"hi\"", t(-1.0))])), ("say \"pass\"", p(1, "back\\slash", vec![("a\\b", t(-2.0)), ("say \"hi\"", t(0.5))]))]),
+        ));
+    }
     res
 }
